@@ -8,15 +8,17 @@ STUBS = ["base.c", "alloc_direct.c", "mem0.c"]
 SCRIPTS = [("N0N1R", "--"), ("N0C0R", "--"), ("F0C0R", "--"), ("N0RR", "--"), ("N0F1", "--"), ("F0", "--"),
            ("N0RR", "n-"), ("N0N1R", "c-"), ("F0", "f-"), ("N0F1", "-n"), ("N0", "f-"), ("N0N1RR", "-n")]
 THOROUGH = []
+PROBE = [("F0R", "--"), ("F0F1R", "--"), ("F0F1RR", "--"), ("F0N1R", "--"), ("F0F1C0R", "--"), ("F0R", "f-"), ("F0F1R", "c-")]
 
 
 def spec(tier):
     units, jobs = {}, []
-    scripts = SCRIPTS + (THOROUGH if tier != "quick" else [])
+    import os
+    scripts = SCRIPTS + (THOROUGH if tier != "quick" else []) + (PROBE if os.environ.get("C07PROBE") else [])
     for i, (ops, react) in enumerate(scripts):
         k = sum(1 for c in ops if c in "NFCR")
         u = "s%d" % i
-        units[u] = dict(harness=["C07/h_sched.c"], sources=SRC, stubs=STUBS, defines={"T": 2, "K": k, "OPS": '"%s"' % ops, "REACT": '"%s"' % react, "DIRECT_INIT": None})
+        units[u] = dict(harness=["C07/h_sched.c"], sources=SRC, stubs=STUBS, defines={"T": 2, "K": k, "OPS": '"%s"' % ops, "REACT": '"%s"' % react, "DIRECT_INIT": None, "VERIF_TYPED_ACQUIRE": 1})
         jobs.append(dict(unit=u, entry="h_sched_program", unwind=4, unwindset={"aws_array_list_mem_swap": 1, "aws_is_mem_zeroed": 7, "h_sched_program": k + 2}, timeout=100 if tier == "quick" else 1800,
                          bounds="program %s then clean_up; task functions: %s; all timestamps unconstrained 64-bit" % (ops, react),
                          what="init; %s; clean_up  (N=schedule_now F=schedule_future C=cancel R=run_all(t), digit=task; re-entrant behaviour %s: n/f schedule other now/future, c cancel other, s re-schedule self)" % (ops, react)))
